@@ -162,7 +162,10 @@ Submit(r) ==
     /\ P_Submit(r)
     /\ \E p \in ScheduleSet({[infl |-> rg[r].infl, ready |-> rg[r].ready]}, rg[r].sq) :
           rg' = [rg EXCEPT ![r].sq = <<>>, ![r].infl = p.infl, ![r].ready = p.ready]
-    /\ last' = [a |-> "submit", r |-> r, n |-> Len(rg[r].sq)]
+    \* camb: a cancel in this batch had several entries with its target user_data to choose from (the
+    \* code takes the first in its Vec / deque order, which the model does not track)
+    /\ last' = [a |-> "submit", r |-> r, n |-> Len(rg[r].sq),
+                camb |-> Cardinality(ScheduleSet({[infl |-> rg[r].infl, ready |-> rg[r].ready]}, rg[r].sq)) > 1]
     /\ UNCHANGED <<vis, opx, hmode, fs, dur, tw, tdur, bufs, nticks, ncrash>>
 
 RECURSIVE ReadyLen(_)
@@ -227,7 +230,9 @@ PopSome(r) ==
                   /\ fs' = fs1 /\ dur' = dur1 /\ tw' = tw1 /\ tdur' = tdur1
                   /\ bufs' = [bufs EXCEPT ![u] = data]
                   /\ last' = [a |-> "pop", r |-> r, some |-> TRUE, ud |-> u, tag |-> o.tag, res |-> res,
-                              amb |-> Cardinality(r1[1]) > 1]
+                              amb |-> Cardinality(r1[1]) > 1,
+                              \* several entries of the batch carry this user_data (the completion does not say which came)
+                              damb |-> Cardinality({e2 \in r1[1] : ops[e2.ud].tag = o.tag}) > 1]
     /\ UNCHANGED <<opx, hmode, nticks, ncrash>>
 
 PopNone(r) ==
